@@ -43,8 +43,19 @@ def _ident(path):
     return re.sub(r"[^A-Za-z0-9]", "-", path)
 
 
+def _seeded(seed, path, col):
+    """'tag' (default): one bad tag in one column entry; 'deep': every entry of the sidecar file carries its HED key at an
+    illegal depth and no HED key at the first or second level (only the sidecar validator can tell that it is wrong)"""
+    if not (seed and seed["kind"] == "sc" and seed["path"] == path):
+        return False
+    return "deep" if seed.get("form") == "deep" else (seed["col"] == col)
+
+
 def entry(path, col, bad=False, decoy=False):
     """content of the entry of column `col` in the sidecar file `path`: names its own source file"""
+    if bad == "deep":
+        return {"Description": "column %s as given by %s" % (col, path),
+                "Levels": {v: {"HED": "Label/%s_%s_%s" % (_ident(path), col, v)} for v in CATS[col]}}
     hed = {}
     for i, v in enumerate(CATS[col]):
         hed[v] = "Label/%s_%s_%s" % (_ident(path), col, v)
@@ -56,8 +67,7 @@ def entry(path, col, bad=False, decoy=False):
 
 
 def sidecar_content(path, cols, seed=None, decoy=False):
-    return {c: entry(path, c, bad=bool(seed and seed["kind"] == "sc" and seed["path"] == path and seed["col"] == c),
-                     decoy=decoy) for c in sorted(cols)}
+    return {c: entry(path, c, bad=_seeded(seed, path, c), decoy=decoy) for c in sorted(cols)}
 
 
 def events_text(path, seed=None, decoy=False):
@@ -96,8 +106,7 @@ def merged_dict(mmap, seed=None):
     """the JSON object the specification's merged map (column -> source path) stands for"""
     if not mmap:           # TLC prints the empty function as []
         return {}
-    return {c: entry(src, c, bad=bool(seed and seed["kind"] == "sc" and seed["path"] == src and seed["col"] == c))
-            for c, src in mmap.items()}
+    return {c: entry(src, c, bad=_seeded(seed, src, c)) for c, src in mmap.items()}
 
 
 # ----------------------------------------------------------------------------------------------------------
@@ -180,7 +189,10 @@ def pick_seed(tree, rng):
     if scs and rng.random() < 0.65:
         # prefer a sidecar entry that is overridden for some file or inherited by some file: the interesting ones
         s = rng.choice(scs)
-        return {"kind": "sc", "path": s["path"], "col": rng.choice(sorted(s["cols"]))}
+        sd = {"kind": "sc", "path": s["path"], "col": rng.choice(sorted(s["cols"]))}
+        if rng.random() < 0.3:
+            sd["form"] = "deep"
+        return sd
     return {"kind": "row", "path": rng.choice(evs)["path"], "row": rng.randrange(len(ROWS))}
 
 
@@ -253,7 +265,7 @@ def judge_run(tree, seed, obs, label):
                 elif x is None:
                     parts.append("extra")
                 else:
-                    src = [q for q in e["chain"] if g == entry(q, c, bad=bool(seed and seed["kind"] == "sc" and seed["path"] == q and seed["col"] == c))]
+                    src = [q for q in e["chain"] if g == entry(q, c, bad=_seeded(seed, q, c))]
                     parts.append("shallower-wins" if src else "entry-from-outside-chain")
             kind = "+".join(sorted(set(parts))) or "other"
         prob.append(("merged:" + kind,
@@ -299,8 +311,10 @@ def judge_run(tree, seed, obs, label):
     # 5. seeded error: files reported with an error == files the specification says carry the seeded entry
     if seed:
         if seed["kind"] == "sc":
-            dirty = {os.path.basename(s["path"]) for s in tree["sidecars"] if (s["merged"] or {}).get(seed["col"]) == seed["path"]}
-            dirty |= {os.path.basename(e["path"]) for e in tree["events"] if (e["merged"] or {}).get(seed["col"]) == seed["path"]}
+            hit = lambda m: any(src == seed["path"] and _seeded(seed, src, c) for c, src in (m or {}).items())
+            dirty = {os.path.basename(s["path"]) for s in tree["sidecars"] if hit(s["merged"])}
+            if seed.get("form") != "deep":      # (a malformed ENTRY is the sidecar's fault only: the events file has no HED there)
+                dirty |= {os.path.basename(e["path"]) for e in tree["events"] if hit(e["merged"])}
         else:
             dirty = {os.path.basename(seed["path"])}
         got_dirty = {i[2] for i in got["issues"]["False"]}
